@@ -22,7 +22,7 @@ META = {
 }
 
 FLAGS = list(itertools.product([True, False], repeat=4))
-PLANS = {"none": [], "late34": [(96, 3, 4)], "168": [(0, 16, 8)], "24-84": [(0, 2, 4), (48, 8, 4)], "38": [(0, 3, 8)], "34": [(0, 3, 4)], "68-24": [(0, 6, 8), (144, 2, 4)], "34-58": [(0, 3, 4), (72, 5, 8)], "44-34": [(0, 4, 4), (96, 3, 4)]}
+PLANS = {"none": [], "34-38-34": [(0, 3, 4), (72, 3, 8), (108, 3, 4)], "late34": [(96, 3, 4)], "168": [(0, 16, 8)], "24-84": [(0, 2, 4), (48, 8, 4)], "38": [(0, 3, 8)], "34": [(0, 3, 4)], "68-24": [(0, 6, 8), (144, 2, 4)], "34-58": [(0, 3, 4), (72, 5, 8)], "44-34": [(0, 4, 4), (96, 3, 4)]}
 
 
 def mk(fl, bins, ntr, prange=(60, 62), nv=None):
